@@ -2,38 +2,41 @@
    Property theorems only: each proof is one application of a lemma proved in Proofs/, followed by Print Assumptions. *)
 From Coq Require Import ZArith List Bool.
 From CS Require MixInv MixDP.
-From CS Require Import Actions NAdvance Multistage Exec Sched RunFacts Projections BasicInv MultistageRun TLBridge.
+From CS Require Import Actions NAdvance Multistage Exec Sched RunFacts Projections BasicInv MultistageRun TLBridge MixBridge.
 Import ListNotations.
 Open Scope Z_scope.
 
-(* PARTIAL: on the Mixed generator over an abstract planner: forward steps executed = planner cost C N S, storage empty at the end; bridge to the extracted model not proved yet; optimality over all schedules not proved *)
-Module M_C06_mixed_total_partial.
-Import MixInv.
-Theorem C06_mixed_total_partial :
-  forall (plan : Z -> Z -> kind * Z) (C : Z -> Z -> Z) (N S_ : Z) (s : st) (x : xst),
-         Inv plan C N S_ s x -> pcv s = PDone -> done x = C N S_ /\ store x = [].
-Proof. exact (@MixInv.done_total). Qed.
-Print Assumptions C06_mixed_total_partial.
-End M_C06_mixed_total_partial.
+(* Mixed on the extracted model (either planner path): once the schedule reports exhaustion the reference executor has carried
+   out exactly C N S forward steps -- the cost of the planner's recurrence (C3 N S = MixDP.C N S, the model of
+   mixed_step_memoization(N, S)[2]); the same for RAM and DISK *)
+Theorem C06_mixed_forward_total : forall (N S_ : Z) (sg : storage) (tab : bool), 1 <= N -> (2 <= N -> 1 <= S_) -> 0 <= S_ -> sg = RAM \/ sg = DISK -> forall k : nat,
+  let '(s', m, ls) := run_ops (pmx N S_ sg) (sch0 N S_ sg tab) mon0 (repeat Next k) in
+  mon_ok m /\ no_raise ls /\ (is_exhausted s' = true -> fwd_total (cnt (mx m)) = C3 N S_).
+Proof. exact mixed_cfg_run. Qed.
+Print Assumptions C06_mixed_forward_total.
+
+Theorem C06_cost_is_planner_cost : forall m k : Z, 1 <= m -> (1 <= k \/ m = 1 /\ 0 <= k) -> C3 m k = MixDP.C m k.
+Proof. exact C3_C. Qed.
+Print Assumptions C06_cost_is_planner_cost.
 
 (*  *)
 Module M_C06_plan_1.
 Import MixDP.
 Theorem C06_plan_1 :
-  forall k : Z, 0 <= k -> plan 1 k = (KFR, 1) /\ C 1 k = 1.
+  forall k : Z, 0 <= k -> plan 1 k = (Mixed.KFR, 1) /\ C 1 k = 1.
 Proof. exact (@MixDP.plan_1). Qed.
 Print Assumptions C06_plan_1.
 End M_C06_plan_1.
 
-(* facts of the concrete planner model *)
+(* facts of the concrete planner model: the step kind and length it prescribes *)
 Module M_C06_plan_ge2.
 Import MixDP.
 Theorem C06_plan_ge2 :
   forall m k : Z,
          2 <= m ->
          1 <= k ->
-         fst (plan m k) = KIcs /\ 2 <= snd (plan m k) <= m - 1 /\ (2 <= k \/ snd (plan m k) = m - 1) \/
-         fst (plan m k) = KAdj /\ snd (plan m k) = 1 /\ (2 <= k \/ m = 2).
+         fst (plan m k) = Mixed.KIcs /\ 2 <= snd (plan m k) <= m - 1 /\ (2 <= k \/ snd (plan m k) = m - 1) \/
+         fst (plan m k) = Mixed.KAdj /\ snd (plan m k) = 1 /\ (2 <= k \/ m = 2).
 Proof. exact (@MixDP.plan_ge2). Qed.
 Print Assumptions C06_plan_ge2.
 End M_C06_plan_ge2.
@@ -42,7 +45,7 @@ End M_C06_plan_ge2.
 Module M_C06_plan_2.
 Import MixDP.
 Theorem C06_plan_2 :
-  forall k : Z, 1 <= k -> fst (plan 2 k) = KAdj.
+  forall k : Z, 1 <= k -> fst (plan 2 k) = Mixed.KAdj.
 Proof. exact (@MixDP.plan_2). Qed.
 Print Assumptions C06_plan_2.
 End M_C06_plan_2.
@@ -54,7 +57,7 @@ Theorem C06_C_ics :
   forall m k : Z,
          2 <= m ->
          1 <= k ->
-         fst (plan m k) = KIcs ->
+         fst (plan m k) = Mixed.KIcs ->
          C m k = snd (plan m k) + C (m - snd (plan m k)) (k - 1) + C (snd (plan m k)) k.
 Proof. exact (@MixDP.C_ics). Qed.
 Print Assumptions C06_C_ics.
@@ -64,8 +67,29 @@ End M_C06_C_ics.
 Module M_C06_C_adj.
 Import MixDP.
 Theorem C06_C_adj :
-  forall m k : Z, 2 <= m -> 1 <= k -> fst (plan m k) = KAdj -> C m k = 1 + C (m - 1) (k - 1).
+  forall m k : Z, 2 <= m -> 1 <= k -> fst (plan m k) = Mixed.KAdj -> C m k = 1 + C (m - 1) (k - 1).
 Proof. exact (@MixDP.C_adj). Qed.
 Print Assumptions C06_C_adj.
 End M_C06_C_adj.
+
+(* PARTIAL: the planner value is the minimum over the candidates of its own recurrence (one-level unfolding); that no executable schedule whatsoever does better (Maddison 2024, Thm 1) is not proved *)
+Module M_C06_planC_unfold_partial.
+Import MixDP.
+Theorem C06_planC_unfold_partial :
+  forall m k : Z,
+         2 <= m ->
+         1 <= k ->
+         let s := Z.min k (m - 1) in
+         m <= s + 1 /\ planC m k = (Mixed.KAdj, 1, m) \/
+         s + 1 < m /\ s = 1 /\ planC m k = (Mixed.KIcs, m - 1, m * (m + 1) / 2 - 1) \/
+         s + 1 < m /\
+         2 <= s /\
+         (exists j : Z,
+            2 <= j <= m - 1 /\
+            (let cj := j + C j s + C (m - j) (s - 1) in
+             let ca := 1 + C (m - 1) (s - 1) in
+             planC m k = (if ca <? cj then (Mixed.KAdj, 1, ca) else (Mixed.KIcs, j, cj)))).
+Proof. exact (@MixDP.planC_unfold). Qed.
+Print Assumptions C06_planC_unfold_partial.
+End M_C06_planC_unfold_partial.
 
